@@ -70,7 +70,11 @@ type c03Case struct {
 
 // c03Config builds the configuration carrying the candidates at the given position.
 func c03Config(pos string, cands []string) cfg.Config {
-	c := cfg.Config{Meta: cfg.Meta{Pkg: sp("app"), Functions: []cfg.KV{{K: "a", V: "fx/lib.Echo"}}}, Params: c03Declared()}
+	// `a` is registered by its full path, `b` through an alias, `e` through an alias followed by a sub-path: the three
+	// packages export the same self-identifying Echo (without arguments it names its package)
+	c := cfg.Config{Meta: cfg.Meta{Pkg: sp("app"),
+		Imports:   []cfg.KV{{K: "ali", V: "fx/libx"}, {K: "fxa", V: "fx/a"}},
+		Functions: []cfg.KV{{K: "a", V: "fx/lib.Echo"}, {K: "b", V: "ali.Echo"}, {K: "e", V: "fxa/lib.Echo"}}}, Params: c03Declared()}
 	for i, s := range cands {
 		switch pos {
 		case "param":
@@ -99,7 +103,7 @@ func c03Key(pos string, i int) string {
 // accepted ones and compares every evaluated value with the reference evaluation.
 func c03Eval(t tb, cs c03Case, q *[]*c03Pending) {
 	col := ev.Get()
-	funcs := map[string]bool{"env": true, "envInt": true, "todo": true, "a": true}
+	funcs := map[string]bool{"env": true, "envInt": true, "todo": true, "a": true, "b": true, "e": true}
 	expBad := map[string]bool{}
 	var good []string
 	for i, s := range cs.Candidates {
@@ -375,7 +379,11 @@ func TestC03(t *testing.T) {
 			// separators, brackets and quotes inside string arguments; arguments that are Go expressions rather than plain literals
 			`%a("x,y")%`, `%a("x ,y")%`, `%a("a,,b")%`, `%a("1,000", 2)%`, `%a("(")%`, `%a(")")%`, `%a("))")%`, `%a("f(x), g(y)")%`, `%a("a\"b,c")%`,
 			`%a((1))%`, `%a(("x"))%`, `%a(int(5))%`, `%a(string("s)"))%`, `%a(float64(2))%`, `%a(1, (2))%`, `%a((1), 2)%`, `%a(((true)))%`,
-			`%todo("a,b")%`, `%todo(("later"))%`, `%env("VERIF_UNSET", "1,000")%`, `%env("VERIF_UNSET", ("d)"))%`, `%envInt("VERIF_UNSET", int(8080))%`, `%envInt("VERIF_UNSET", (3))%`, `x%a("p,q")%y%a((7))%`}
+			`%todo("a,b")%`, `%todo(("later"))%`, `%env("VERIF_UNSET", "1,000")%`, `%env("VERIF_UNSET", ("d)"))%`, `%envInt("VERIF_UNSET", int(8080))%`, `%envInt("VERIF_UNSET", (3))%`, `x%a("p,q")%y%a((7))%`,
+			// the registered function is the one the alias table denotes; the same function used by several tokens
+			`%a()%`, `%b()%`, `%e()%`, `%b("x")%`, `%e(1)%`, `%b()%-%b()%`, `%a()%%b()%%e()%%a()%`, `%e()%:%e("again")%:%e()%`,
+			// a percent sign spelled with an escape inside a string argument
+			`%a("100\x25 sure")%`, `%todo("\x25d of \x25s")%`, `%env("VERIF_UNSET", "50\u0025")%`}
 		for _, pos := range []string{"param", "service-arg", "decorator-arg"} {
 			c03Eval(t, c03Case{Position: pos, Candidates: extras}, &q)
 		}
